@@ -299,9 +299,12 @@ def header_range_guards(F):
     file-table-derived index"""
     for fid in sorted(F.fns):
         fn = F.fns[fid]
-        if fn.get("cls") != "nifly::NiHeader" or fn.get("tmpl") == "pattern":
+        owner = fn
+        while owner is not None and owner.get("lambda_parent"):
+            owner = F.fns.get(owner["lambda_parent"])  # a helper lambda inside a NiHeader method is part of that method
+        if owner is None or owner.get("cls") != "nifly::NiHeader" or fn.get("tmpl") == "pattern":
             continue
-        pids = {p["id"] for p in fn.get("params", [])}
+        pids = {p["id"] for p in fn.get("params", [])} if owner is fn else set()
         # locals that hold a value read out of a header table (file-derived): `t = blockTypeIndices[i]`, `t = GetBlockTypeIndex(i)`
         derived = {}
         for d in walk(fn.get("body") or {}):
